@@ -22,7 +22,14 @@ def stepC33 (ts : List String) : String :=
           | ["wait"] => some Ev.wait
           | _ => none
         match ev with
-        | some ev => let r := step acc.1 ev; (r.1, acc.2 ++ [resStr33 r.2])
+        | some ev =>
+          let r := step acc.1 ev
+          -- a rejected NewJob returns the cause of its context: the first of Done / a job error
+          let out := match r.2, acc.1.njCause with
+            | .rejected, some (some e) => s!"rejected:err{e}"
+            | .rejected, some none => "rejected:done"
+            | x, _ => resStr33 x
+          (r.1, acc.2 ++ [out])
         | none => (acc.1, acc.2 ++ ["bad-op"])
       joinSp (evs.foldl step1 (init n, [])).2
   | _ => "bad-op"
